@@ -319,6 +319,10 @@ class Schema(dict, metaclass=LogicalMeta):
 
         context = self.__parser__.make_context(force_error=True)
         value = field.parse_value(value, context=context)
+        if unprovided(value):
+            # the value was excluded (on_error / invalid_values = 'exclude') and there is no default:
+            # nothing to store, as when the instance is initialized
+            return
 
         if field.property:
             if callable(setter):
